@@ -3,7 +3,9 @@
        -> <canon of the (projected) model value of the conjuncts>
           <canon of the model value of the printed expression, or ->
           <canon of the model value of print_nf (project (normalize conjuncts)), or OUT>
-          <S-expression of that printed normal form, or ->      (fields separated by TAB)
+          <S-expression of that printed normal form, or ->
+          <canon of the model value of impl_def conjuncts (definition-mode profiles), or ->
+          (fields separated by TAB)
    B <tok> ...      (int | string | gt:z ge:z lt:z le:z ne:z)
        -> the tokens range_rewrite writes (int uint op:z ...) *)
 open C07_model
@@ -162,7 +164,9 @@ let handle_p head body printed =
         let e = c07_print nf' in
         (show (c07_eval labs atoms fuel [{ c_rec = false; c_exprs = [e] }]), sx_expr e)
       else ("OUT", "-") in
-    String.concat "\t" [m_orig; m_printed; m_nf; nf_sx]
+    (* the implementation-layer model of the definition-mode printer (root level) *)
+    let m_impl = if value_mode then "-" else show (c07_eval labs atoms fuel (c07_impl_def cs)) in
+    String.concat "\t" [m_orig; m_printed; m_nf; nf_sx; m_impl]
   | _ -> "BADCASE"
 
 let tok_of s =
